@@ -109,7 +109,7 @@ def gen_doc(rng, i, defect=None):
             s = Stream({b"Filter": N("RunLengthDecode"), b"Bin\x80\"key": Name(b"v\xff")}, b"".join(bytes([0, c]) for c in data) + b"\x80")
         r = d.add(s)
         streams.append(r)
-        plain[r.n] = (data, kind)
+        plain[r.n] = (data, [None, "generalized", "generalized", "generalized", "specialized"][kind])
         raw[r.n] = s.data
     extras[b"Streams"] = list(streams)
     sig = ""
@@ -122,8 +122,73 @@ def gen_doc(rng, i, defect=None):
     for n, o in d.objects.items():
         if isinstance(o, Stream) and n not in raw:
             raw[n] = o.data
-            plain[n] = (o.data, 0)
+            plain[n] = (o.data, None)
     return d, plain, raw, sig
+
+
+RANK = {"none": 0, "generalized": 1, "specialized": 2, "all": 3, "never": 99}
+
+
+def predict12(data, cols=4):
+    """(PNG-up rows with filter type 0, the row-padded plaintext)"""
+    rows = [data[j:j + cols].ljust(cols, b"\x00") for j in range(0, len(data), cols)]
+    return b"".join(b"\x00" + r for r in rows), b"".join(rows)
+
+
+def stream_layer_doc(rng):
+    """one page + streams at the case splits of Stream::writeStreamJSON / pipeStreamData: empty and 1-byte data, with and without
+    filters, filters with parameters, chains with parameter arrays (null entries), indirect /Filter and /DecodeParms, filters of the
+    specialized level, a filter qpdf cannot decode, an empty filter array. plain[n] = (decoded data, lowest decode level that decodes)"""
+    d = pdfgen.page_doc(1, marker="S")
+    plain, raw = {}, {}
+    refs = []
+
+    def add(dic, rawdata, decoded, level):
+        r = d.add(Stream(dic, rawdata))
+        refs.append(r)
+        plain[r.n] = (decoded, level)
+        raw[r.n] = rawdata
+        return r
+    text = bytes(rng.choice(b"abc \n\x00\xff(") for _ in range(rng.choice([5, 57, 300])))
+    rows, padded = predict12(text)
+    one = bytes([rng.randrange(256)])
+    fname = d.add(N("FlateDecode"))
+    fparms = d.add({b"Predictor": 12, b"Columns": 4})
+    farr = d.add([N("ASCIIHexDecode"), N("FlateDecode")])
+    # empty data
+    add({}, b"", b"", None)
+    add({b"Filter": N("FlateDecode")}, b"", b"", "generalized")
+    add({b"Filter": N("FlateDecode"), b"DecodeParms": {b"Predictor": 1}}, b"", b"", "generalized")
+    add({b"Filter": N("FlateDecode"), b"DecodeParms": {b"Predictor": 12, b"Columns": 4}, b"Marker": Str(b"empty")}, b"", b"", "generalized")
+    add({b"Filter": [N("ASCIIHexDecode"), N("FlateDecode")], b"DecodeParms": [None, {b"Predictor": 12, b"Columns": 4}]}, b"", b"", "generalized")
+    add({b"Filter": fname, b"DecodeParms": fparms}, b"", b"", "generalized")
+    add({b"Filter": N("RunLengthDecode")}, b"", b"", "specialized")
+    add({b"Filter": N("JBIG2Decode")}, b"", b"", "never")
+    add({b"Filter": []}, b"", b"", "generalized")
+    # one byte
+    add({}, one, one, None)
+    add({b"Filter": N("FlateDecode")}, flate(one), one, "generalized")
+    add({b"Filter": N("ASCIIHexDecode")}, one.hex().encode() + b">", one, "generalized")
+    add({b"Filter": N("RunLengthDecode")}, b"\x00" + one + b"\x80", one, "specialized")
+    # parameters, chains, parameter arrays, indirect keys
+    add({b"Filter": N("FlateDecode"), b"DecodeParms": {b"Predictor": 12, b"Columns": 4}}, flate(rows), padded, "generalized")
+    add({b"Filter": [N("ASCIIHexDecode"), N("FlateDecode")], b"DecodeParms": [None, {b"Predictor": 12, b"Columns": 4}]},
+        flate(rows).hex().encode() + b">", padded, "generalized")
+    add({b"Filter": [N("ASCII85Decode"), N("FlateDecode")], b"DecodeParms": [None, None]}, base64.a85encode(flate(text)) + b"~>", text, "generalized")
+    add({b"Filter": fname, b"DecodeParms": fparms}, flate(rows), padded, "generalized")
+    add({b"Filter": farr, b"DecodeParms": [None, fparms]}, flate(rows).hex().encode() + b">", padded, "generalized")
+    add({b"Filter": [N("FlateDecode"), N("RunLengthDecode")]}, flate(b"".join(bytes([0, c]) for c in text) + b"\x80"), text, "specialized")
+    add({b"Filter": N("JBIG2Decode"), b"DecodeParms": {b"K": 1}}, text, text, "never")
+    add({b"Filter": [], b"Marker": 1}, text, text, "generalized")
+    add({b"Filter": [N("FlateDecode")], b"DecodeParms": [{b"Predictor": 12, b"Columns": 4}]}, flate(rows), padded, "generalized")
+    d.objects[1][b"Streams"] = list(refs)
+    # the indirect filter objects stay referenced when an export has decoded the streams (the writer drops unreferenced objects)
+    d.objects[1][b"Keep"] = [fname, fparms, farr]
+    for n, o in d.objects.items():
+        if isinstance(o, Stream) and n not in raw:
+            raw[n] = o.data
+            plain[n] = (o.data, None)
+    return d, plain, raw
 
 
 # ------------------------------------------------------------------ schema (layout printed by --json-help)
@@ -304,9 +369,10 @@ def cmp_doc(doc, plain, raw, objs, sd, dl, wanted, wd, prefix):
                 continue
             s = v["stream"]
             sdict = dict(s["dict"])
-            data, kind = plain[n]
+            data, level = plain[n]
             td = dict(t.d)
-            decoded_expected = (dl != "none") and kind in (1, 2, 3, 4) and not (kind == 4 and dl == "generalized")
+            # /Filter and /DecodeParms leave the dictionary exactly when the exported data are the decoded data
+            decoded_expected = level is not None and dl != "none" and RANK[dl] >= RANK[level]
             got_data = None
             if sd == "inline":
                 try:
@@ -395,6 +461,12 @@ def run_cli(cx):
         p = os.path.join(wd, "defect-%s.pdf" % cls)
         open(p, "wb").write(data)
         docs.append({"name": "defect-" + cls, "path": p, "doc": d, "plain": plain, "raw": raw, "sig": sig, "kind": "defect-class:" + cls})
+    for j in range(1 if quick else 6):
+        d, plain, raw = stream_layer_doc(rng)
+        data, _ = pdfgen.write_classic(d, sp=sp)
+        p = os.path.join(wd, "streams%d.pdf" % j)
+        open(p, "wb").write(data)
+        docs.append({"name": "streams%d" % j, "path": p, "doc": d, "plain": plain, "raw": raw, "sig": "", "kind": "generated-stream-layer"})
     # corpus: small files of the repository test suite
     cdir = os.path.join(common.REPO, "qpdf", "qtest", "qpdf")
     cfiles = sorted(f for f in os.listdir(cdir) if f.endswith(".pdf") and os.path.getsize(os.path.join(cdir, f)) <= 40000)
@@ -405,13 +477,13 @@ def run_cli(cx):
     jobs = []
     for dd in docs:
         combos = [(sd, dl) for sd in SD for dl in DL]
-        if quick or dd["kind"] == "corpus":
+        if (quick or dd["kind"] == "corpus") and dd["kind"] != "generated-stream-layer":
             combos = rng.sample(combos, 3 if dd["kind"] != "corpus" else 1)
             if dd["kind"] == "generated" and ("inline", "none") not in combos:
                 combos.append(("inline", "none"))
         for sd, dl in combos:
             subsets = [None]
-            if dd["doc"] is not None:
+            if dd["doc"] is not None and dd["kind"] != "generated-stream-layer":
                 nums = sorted(dd["doc"].objects)
                 streams = [n for n in nums if isinstance(dd["doc"].objects[n], Stream)]
                 allsub = [["%d" % (max(nums) + 7)], ["trailer"], ["%d" % n for n in streams], ["%d" % n for n in rng.sample(nums, 3)] + ["trailer"],
@@ -433,6 +505,16 @@ def run_cli(cx):
         return rc, se, out, prefix, ["qpdf"] + args + [dd["path"], "out.json"]
     res = common.par_map(run_a, range(len(jobs)))
     vals = validate_json_files(cx, [r[2] for r in res if r[0] in (0, 3)])
+
+    # reference export per document: stream data none, where writeStreamJSON copies the dictionary as it is
+    def run_ref(dd):
+        out = os.path.join(wd, "ref-%s.json" % re.sub(r"[^A-Za-z0-9]", "_", dd["name"]))
+        rc, so, se = q(["--json-output", "--json-stream-data=none", "--decode-level=none", dd["path"], out], cwd=wd)
+        if rc not in (0, 3):
+            return None
+        pv, val = c14.strict_loads(open(out, "rb").read())
+        return val["qpdf"][1] if pv == 0 else None
+    refs = dict(zip([dd["name"] for dd in docs], common.par_map(run_ref, docs)))
     nontriv = set()
     kinds = {}
     pend_all = []
@@ -463,6 +545,18 @@ def run_cli(cx):
         if errs:
             cx.bad("cli-json-output", case, "output does not conform to the --json-help layout: " + "; ".join(errs[:3]), signature=dd["sig"])
             continue
+        ref = refs.get(dd["name"])
+        if ref is not None:
+            for k, v in val["qpdf"][1].items():
+                if "stream" not in v or "stream" not in ref.get(k, {}):
+                    continue
+                own = {kk: x for kk, x in ref[k]["stream"]["dict"].items() if kk != "/Length"}
+                got = {kk: x for kk, x in v["stream"]["dict"].items() if kk != "/Length"}
+                stripped = {kk: x for kk, x in own.items() if kk not in ("/Filter", "/DecodeParms")}
+                if not (same_json_objects(got, own) or (dl != "none" and sd != "none" and same_json_objects(got, stripped))):
+                    cx.bad("cli-json-output", case, "%s: the exported stream dictionary %s is not the document's own %s (decode level %s: "
+                           "/Filter and /DecodeParms may only leave together with decoding)" % (k, json.dumps(got)[:200], json.dumps(own)[:200], dl), signature=dd["sig"])
+                    break
         if dd["doc"] is not None:
             wanted = None
             if sub is not None:
@@ -473,7 +567,7 @@ def run_cli(cx):
             for p in probs[:2]:
                 cx.bad("cli-json-output", case, "exported objects differ from the document: " + p, signature=dd["sig"])
             pend_all += [(case, dd["sig"], a, b, c) for a, b, c in pend]
-            if sub is None and sd != "none" and not probs:
+            if sub is None and sd != "none" and (not probs or dd["kind"] == "generated-stream-layer"):
                 roundtrip.append((i, dd, sd, dl, out, val))
     # text strings: the exported text is the text the bytes denote (extracted text_of)
     tmap = texts.get([b for _, _, _, b, _ in pend_all])
@@ -547,7 +641,7 @@ def run_cli(cx):
         seen, rt, ncorpus = set(), [], 0
         for t in sorted(roundtrip, key=lambda t: (t[2] != "inline", t[3] != "none")):
             dd = t[1]
-            if dd["name"] in seen:
+            if dd["name"] in seen and dd["kind"] != "generated-stream-layer":     # the stream-layer document: every mode x level
                 continue
             if dd["kind"] == "corpus":
                 ncorpus += 1
@@ -577,6 +671,11 @@ def run_cli(cx):
         upd = os.path.join(wd, "d%d-upd.pdf" % i)
         r["upd"] = q(["--static-id", "--qdf", "--update-from-json=" + out, dd["path"], upd], cwd=wd)
         r["ref"] = q(["--update-from-json=" + out, "--json-output", "--json-stream-data=inline", "--decode-level=none", dd["path"], ref], cwd=wd)
+        if dl == "none":
+            # independent of generation 1: what --json-input / --update-from-json make of it, seen with stream data none, against the
+            # document's own reference export (whole stream dictionaries, /Filter and /DecodeParms included)
+            r["in_none"] = q(["--json-input", "--json-output", "--json-stream-data=none", "--decode-level=none", out, ref + ".in-none.json"], cwd=wd)
+            r["upd_none"] = q(["--update-from-json=" + out, "--json-output", "--json-stream-data=none", "--decode-level=none", dd["path"], ref + ".upd-none.json"], cwd=wd)
         return r, b, g2, g3, ref, upd
     cres = common.par_map(run_c, rt)
     g2vals = validate_json_files(cx, [c[2] for c in cres if "g2" in c[0] and c[0]["g2"][0] in (0, 3)])
@@ -658,6 +757,31 @@ def run_cli(cx):
                             cx.bad("cli-update", dict(case, argv=["qpdf", "--update-from-json=g1.json", dd["path"], "--json-output", "after.json"]),
                                    "--update-from-json with the document's own JSON changes %s: %s -> %s" % (k, json.dumps(o2[k])[:160], json.dumps(ou[k])[:160]), signature=dd["sig"])
                             break
+        # the document after the round trip against the document itself (reference export, stream data none)
+        own = refs.get(dd["name"])
+        for key, what, part in (("in_none", "--json-input of the document's JSON yields", "cli-roundtrip"),
+                                ("upd_none", "--update-from-json with the document's own JSON changes the document:", "cli-update")):
+            if key not in r or own is None or r[key][0] not in (0, 3):
+                continue
+            pvn, vn = c14.strict_loads(open(ref + (".in-none.json" if key == "in_none" else ".upd-none.json"), "rb").read())
+            if pvn != 0:
+                continue
+            on = vn["qpdf"][1]
+            for k in own:
+                if k not in on:
+                    cx.bad(part, case, "%s no %s" % (what, k), signature=dd["sig"])
+                    break
+                a, bb = own[k], on[k]
+                if "stream" in a and "stream" in bb:
+                    pl = []
+                    p = cmp_gen({kk: x for kk, x in a["stream"]["dict"].items() if kk != "/Length"},
+                                {kk: x for kk, x in bb["stream"]["dict"].items() if kk != "/Length"}, pl, k + ".dict")
+                    pend2 += [(case, dd["sig"]) + tuple(x) for x in pl]
+                    if p:
+                        cx.bad(part, dict(case, argv=["qpdf"] + (["--json-input", "g1.json"] if key == "in_none" else ["--update-from-json=g1.json", dd["path"]]) +
+                                          ["--json-output", "--json-stream-data=none", "after.json"]),
+                               "%s a different stream dictionary: %s" % (what, p), signature=dd["sig"])
+                        break
     tmap = texts.get([b for _, _, _, b, _ in pend2])
     for case, sig, path, b, u in pend2:
         got = "1 " + (",".join(str(ord(c)) for c in u) or "-")
@@ -724,6 +848,208 @@ def run_cli(cx):
         if tmap[b] != got:
             cx.bad("cli-update", case, "%s: text of a string in the edited object changed" % path, signature=sig)
     chk.count("cli-update-subset", 2 * len(ejobs), nontriv, samples=[{"input": ejobs[0][1]["name"], "edited": ejobs[0][3]}] if ejobs else [])
+
+    # ---------------- kind F: non-zero generations, several --json-object selections per run
+    run_generations(cx, wd, sp)
+
+
+# ------------------------------------------------------------------ objects with non-zero generations, several --json-object per run
+
+def write_generations(objs, trailer, sp):
+    """classic file whose in-use xref entries carry the generations of objs: {(num, gen): object}; numbers are 1..N without gaps"""
+    out = bytearray(b"%PDF-1.4\n%\xbf\xf7\xa2\xfe\n")
+    offs = {}
+    for (n, g) in sorted(objs):
+        offs[n] = (len(out), g)
+        out += pdfgen.ser_indirect(n, objs[(n, g)], sp, gen=g)
+    size = max(n for n, _ in objs) + 1
+    xref = len(out)
+    out += b"xref\n0 %d\n0000000000 65535 f \n" % size
+    for i in range(1, size):
+        out += b"%010d %05d n \n" % offs[i]
+    tr = dict(trailer)
+    tr[b"Size"] = size
+    out += b"trailer\n" + pdfgen.ser(tr, None, sp) + b"\nstartxref\n%d\n%%%%EOF\n" % xref
+    return bytes(out)
+
+
+def generations_doc(rng):
+    g4, g6, g8, g9 = (rng.choice([1, 2, 3, 7, 65534]) for _ in range(4))
+    content = b"BT /F1 12 Tf 72 720 Td (gen) Tj ET\n"
+    objs = {
+        (1, 0): D(Type=N("Catalog"), Pages=Ref(2), Extra=[Ref(5), Ref(6, g6), Ref(7), Ref(8, g8), Ref(9, g9)]),
+        (2, 0): D(Type=N("Pages"), Kids=[Ref(3)], Count=1),
+        (3, 0): D(Type=N("Page"), Parent=Ref(2), MediaBox=[0, 0, 612, 792], Resources={}, Contents=Ref(4, g4)),
+        (4, g4): Stream({}, content),
+        (5, 0): {b"K": Str(b"five"), b"Next": Ref(6, g6)},
+        (6, g6): [1, 2, {b"Z": Ref(7)}],
+        (7, 0): {b"K": N("seven"), b"Back": Ref(5)},
+        (8, g8): {b"K": 8, b"S": Ref(9, g9)},
+        (9, g9): Stream({b"Filter": N("FlateDecode"), b"K": 9}, flate(b"nine")),
+    }
+    return objs, {b"Root": Ref(1)}
+
+
+def selection_args(objs, rng, quick):
+    """argument lists for --json-object: every spelling (n | n,g | trailer), objects that do not exist under the default generation,
+    all pairs, random longer lists, in varying order"""
+    pool = ["trailer", "12", "12,3"]
+    for (n, g) in sorted(objs):
+        pool.append("%d,%d" % (n, g))
+        pool.append("%d" % n)                      # generation 0 implied: selects the object only when its generation is 0
+        if g != 0:
+            pool.append("%d,0" % n)
+    pool = sorted(set(pool))
+    sels = [[a] for a in pool]
+    pairs = [[a, b] for i, a in enumerate(pool) for b in pool[i + 1:]]
+    if quick:
+        # every pair that mixes an explicit non-zero generation with an implied one, a sample of the others
+        mixed = [p for p in pairs if any("," in a and not a.endswith(",0") for a in p) and any("," not in a and a != "trailer" for a in p)]
+        others = [p for p in pairs if p not in mixed]
+        pairs = mixed[::2] + rng.sample(others, 25)
+    for p in pairs:
+        sels.append(p if rng.random() < 0.5 else p[::-1])
+        if not quick:
+            sels.append(p[::-1])
+    for _ in range(25 if quick else 400):
+        sels.append(rng.sample(pool, rng.choice([3, 3, 4, 6])))
+    return sels
+
+
+def expected_selection(objs, args):
+    want = set()
+    for a in args:
+        if a == "trailer":
+            want.add("trailer")
+            continue
+        n, _, g = a.partition(",")
+        og = (int(n), int(g or 0))
+        if og in objs:
+            want.add("obj:%d %d R" % og)
+    return want
+
+
+def run_generations(cx, wd, sp):
+    chk, rng, quick = cx.chk, cx.rng, cx.quick
+    nontriv = set()
+    total = 0
+    for j in range(1 if quick else 5):
+        objs, trailer = generations_doc(rng)
+        path = os.path.join(wd, "gens%d.pdf" % j)
+        open(path, "wb").write(write_generations(objs, trailer, sp))
+        full_p = os.path.join(wd, "gens%d-full.json" % j)
+        rc, so, se = q(["--json-output", "--json-stream-data=inline", "--decode-level=none", path, full_p], cwd=wd)
+        base = {"input": path, "input_kind": "generated-generations"}
+        pv, full = c14.strict_loads(open(full_p, "rb").read()) if rc in (0, 3) else (2, None)
+        if pv != 0:
+            cx.bad("cli-json-object", dict(base, argv=["qpdf", "--json-output", path, "out.json"], qpdf_exit=rc), "full export of a document with non-zero generations fails: " + se.decode("latin-1")[-300:])
+            continue
+        fobjs = full["qpdf"][1]
+        want_all = set("obj:%d %d R" % og for og in objs) | {"trailer"}
+        if set(fobjs) != want_all:
+            cx.bad("cli-json-object", dict(base, argv=["qpdf", "--json-output", path, "out.json"]), "full export has objects %s, the document has %s" % (sorted(fobjs), sorted(want_all)))
+            continue
+        # ground truth of the values
+        pend = []
+        for og, t in objs.items():
+            v = fobjs["obj:%d %d R" % og]
+            if isinstance(t, Stream):
+                p = cmp_value(t.d, {k: x for k, x in v.get("stream", {}).get("dict", {}).items()}, pend, "obj:%d %d R.dict" % og)
+                if not p and base64.b64decode(v["stream"]["data"]) != t.data:
+                    p = "obj:%d %d R: stream data differs" % og
+            else:
+                p = cmp_value(t, v.get("value"), pend, "obj:%d %d R" % og)
+            if p:
+                cx.bad("cli-json-object", dict(base, argv=["qpdf", "--json-output", path, "out.json"]), "exported objects differ from the document: " + p)
+        sels = selection_args(objs, rng, quick)
+        jobs = []
+        for i, args in enumerate(sels):
+            jobs.append((i, args, "output"))
+            if i % 3 == 0:
+                jobs.append((i, args, "json2"))
+            if i % 3 == 1:
+                jobs.append((i, args, "json1"))
+
+        def run_sel(t):
+            i, args, mode = t
+            sel = ["--json-object=" + a for a in args]
+            if mode == "output":
+                out = os.path.join(wd, "gens%d-s%d.json" % (j, i))
+                argv = ["--json-output", "--json-stream-data=inline", "--decode-level=none"] + sel + [path, out]
+                rc, so, se = q(argv, cwd=wd)
+                data = open(out, "rb").read() if rc in (0, 3) and os.path.exists(out) else b""
+            elif mode == "json2":
+                argv = ["--json=2", "--json-key=qpdf", "--json-stream-data=inline", "--decode-level=none"] + sel + [path]
+                rc, data, se = q(argv, cwd=wd)
+            else:
+                argv = ["--json=1", "--json-key=objects", "--json-key=objectinfo"] + sel + [path]
+                rc, data, se = q(argv, cwd=wd)
+            return rc, data, se, ["qpdf"] + argv
+        res = common.par_map(run_sel, jobs)
+        total += len(jobs)
+        good = []
+        for (i, args, mode), (rc, data, se, argv) in zip(jobs, res):
+            case = dict(base, argv=[("out.json" if a.endswith(".json") else a) for a in argv], qpdf_exit=rc, json_objects=args)
+            pv, val = c14.strict_loads(data)
+            if rc not in (0, 3) or pv != 0:
+                cx.bad("cli-json-object", case, "qpdf fails or writes invalid JSON for this object selection: " + se.decode("latin-1")[-200:])
+                continue
+            want = expected_selection(objs, args)
+            if mode == "json1":
+                got = set(val.get("objects", {}))
+                want1 = set(("trailer" if k == "trailer" else k[4:]) for k in want)
+                goti = set(val.get("objectinfo", {}))
+                if got != want1 or goti != want1 - {"trailer"}:
+                    cx.bad("cli-json-object", case, "--json=1 contains objects %s / objectinfo %s, requested exactly %s" % (sorted(got), sorted(goti), sorted(want1)))
+                continue
+            got = val["qpdf"][1]
+            if set(got) != want:
+                cx.bad("cli-json-object", case, "the JSON contains %s, requested exactly %s" % (sorted(got), sorted(want)))
+                continue
+            diff = [k for k in got if not same_json_objects(got[k], fobjs[k])]
+            if diff:
+                cx.bad("cli-json-object", case, "selected objects differ from the full export: %s" % diff[:3])
+                continue
+            nontriv.add((j, tuple(args), mode))
+            if mode == "output" and len(want) >= 2:
+                good.append((i, args, val))
+        # an edited subset reaches each selected object and changes exactly that object
+        ejobs = []
+        for i, args, val in (good if not quick else rng.sample(good, min(len(good), 8))):
+            for k in sorted(val["qpdf"][1]):
+                ejobs.append((i, args, val, k))
+
+        def run_edit(t):
+            i, args, val, k = t
+            sub = {kk: vv for kk, vv in val["qpdf"][1].items()}
+            v = sub[k]
+            marker = "u:edited %s" % k
+            if "stream" in v:
+                st = dict(v["stream"]); st["dict"] = dict(st["dict"], **{"/EditedByC14": marker}); sub[k] = {"stream": st}
+            elif isinstance(v.get("value"), dict):
+                sub[k] = {"value": dict(v["value"], **{"/EditedByC14": marker})}
+            else:
+                sub[k] = {"value": [v.get("value"), marker]}
+            ep = os.path.join(wd, "gens%d-e%d-%s.json" % (j, i, re.sub(r"[^0-9a-z]", "_", k)))
+            open(ep, "w").write(dump_json({"qpdf": [val["qpdf"][0], sub]}))
+            after = ep[:-5] + "-after.json"
+            rc, so, se = q(["--update-from-json=" + ep, "--json-output", "--json-stream-data=inline", "--decode-level=none", path, after], cwd=wd)
+            return rc, se, ep, after
+        eres = common.par_map(run_edit, ejobs)
+        total += len(ejobs)
+        for (i, args, val, k), (rc, se, ep, after) in zip(ejobs, eres):
+            case = dict(base, json_objects=args, edited_object=k, argv=["qpdf", "--update-from-json=edit.json", path, "--json-output", "after.json"], edit=open(ep).read()[:600])
+            pv, av = c14.strict_loads(open(after, "rb").read()) if rc in (0, 3) and os.path.exists(after) else (2, None)
+            if pv != 0:
+                cx.bad("cli-json-object", case, "--update-from-json with an edited object subset fails: " + se.decode("latin-1")[-300:])
+                continue
+            aobjs = av["qpdf"][1]
+            changed = sorted(kk for kk in set(aobjs) | set(fobjs) if not same_json_objects(aobjs.get(kk), fobjs.get(kk)))
+            if changed != [k] or ("edited %s" % k) not in json.dumps(aobjs[k]):
+                cx.bad("cli-json-object", case, "editing %s through the subset JSON changed %s" % (k, changed))
+            else:
+                nontriv.add((j, tuple(args), "edit", k))
+    chk.count("cli-json-object", total, nontriv, samples=[{"json_objects": sorted(nontriv, key=str)[0][1] if nontriv else []}])
 
 
 def cmp_gen(a, b, pend, path):
